@@ -3,6 +3,7 @@
   listing lemmas in `ListingLemmas.lean`.
 -/
 import YashModel.Quote.Lemmas
+import YashModel.Quote.ListingLemmas
 
 namespace YashModel.Quote
 open YashModel.Generated.QuoteTables
@@ -103,6 +104,83 @@ theorem quote_roundtrip_string (s : String) :
 theorem quote_bare_is_identity (s : List Char) (h : strNeedsQuoting s = false) : quote s = s := by
   simp [quote, h]
 
+/-! ## Listings -/
+
+/-- ★ (composition) `quote s` followed by ANY text `r` is read as the units of `s` and the lexer goes on
+    with `r` in the same word: separately quoted pieces can be glued (`name=value`, `(v1 v2)`). -/
+theorem quote_compose (s : List Char) (us : List WUnit) (r : List Char) :
+    lex (.word us) (quote s ++ r) = lex (.word ((unitsOf s).reverse ++ us)) r :=
+  lex_quote_append s us r
+
+/-- ★ `listing_reparse`, argument lists: for EVERY list of strings, the blank-separated quoted forms read
+    back as exactly that list.  Instances: the elements of an array value `(v1 v2 …)` printed by `typeset -p`,
+    `export -p`, `readonly -p`, `set`; the words `trap -- <action> <COND>`; `typeset -r -x -- <name>`. -/
+theorem quote_args_roundtrip (args : List (List Char)) :
+    readBack (joinSp (args.map quote)) = some args := by
+  rw [readBack, lex_args]
+  exact mapM_fieldOf_units args
+
+/-- ★ `listing_reparse`, `trap`: every line printed by `trap` (for the conditions of `condOrder`) reads
+    back as the words `trap -- <action> <COND>` that recreate the trap, whatever the action contains. -/
+theorem trap_listing_reparse (cond : String) (hc : cond ∈ Listing.condOrder) (action : List Char) :
+    readBack (Listing.dropNl (Listing.printTrap (cond, action)))
+      = some ["trap".toList, "--".toList, action, cond.toList] := by
+  have hq : quote cond.toList = cond.toList := by
+    simp only [Listing.condOrder, List.mem_cons, List.not_mem_nil, or_false] at hc
+    rcases hc with rfl | rfl | rfl | rfl | rfl | rfl | rfl <;> decide
+  have h := quote_args_roundtrip ["trap".toList, "--".toList, action, cond.toList]
+  have e : Listing.printTrap (cond, action)
+      = joinSp (["trap".toList, "--".toList, action, cond.toList].map quote) ++ ['\n'] := by
+    have h1 : quote "trap".toList = "trap".toList := by decide
+    have h2 : quote "--".toList = "--".toList := by decide
+    have h3 : "trap -- ".toList = "trap".toList ++ ' ' :: ("--".toList ++ [' ']) := by decide
+    simp only [Listing.printTrap, List.map_cons, List.map_nil, joinSp, h1, h2, hq, h3, List.append_assoc,
+      List.cons_append, List.nil_append]
+  rw [e, dropNl_append_nl]
+  exact h
+
+/-- ★ `listing_reparse`, valueless variables: the line `typeset [-r ][-x ][-- ]<name>` (also `export`,
+    `readonly`: no option letters) reads back as the utility name, the option words and the name. -/
+theorem attr_line_reparse (builtin : List Char) (optws : List (List Char)) (name : List Char)
+    (hb : quote builtin = builtin) (ho : ∀ o ∈ optws, quote o = o) :
+    readBack (joinSp (builtin :: (optws ++ [quote name]))) = some (builtin :: (optws ++ [name])) := by
+  have h := quote_args_roundtrip (builtin :: (optws ++ [name]))
+  have e : (builtin :: (optws ++ [name])).map quote = builtin :: (optws ++ [quote name]) := by
+    have hm : ∀ l : List (List Char), (∀ o ∈ l, quote o = o) → l.map quote = l := by
+      intro l
+      induction l with
+      | nil => intro _; rfl
+      | cons a t ih =>
+        intro h
+        simp [h a (by simp), ih (fun o ho => h o (by simp [ho]))]
+    simp only [List.map_cons, List.map_append, List.map_nil, hb, hm optws ho]
+  rw [e] at h
+  exact h
+
+/-- `listing_reparse`, `name=value` words (`alias`, `typeset -p`, `export -p`, `readonly -p`, `set`) —
+    PARTIAL.  Proved: the printed word `quote name ++ "=" ++ quote value` lexes as ONE word whose units are
+    those of the name, an unquoted `=`, those of the value, and quote removal gives `name=value`.
+    Full statement (NOT proved, and false for `alias`, see `alias_cross_bracket_witness`):
+      `readBack (quote n ++ '=' :: quote v) = some [n ++ '=' :: v]`
+    Missing: that no tilde / pattern trigger arises ACROSS the two separately quoted parts.  For a
+    declaration utility the word is expanded in `Single` mode (`fieldOfDecl`: no pathname expansion), for
+    `alias` it is not, and name `[`, value `]` prints as the pattern `[=]`. -/
+theorem listing_assignment_word_partial (n v : List Char) :
+    lex (.word []) (quote n ++ '=' :: quote v) = some [unitsOf n ++ WUnit.lit '=' :: unitsOf v]
+    ∧ removeQuotes (unitsOf n ++ WUnit.lit '=' :: unitsOf v) = n ++ '=' :: v := by
+  constructor
+  · rw [lex_quote_append n [] _]
+    rw [lex_word_plain _ '=' _ not_special_eq (Or.inl (by decide))]
+    have := lex_quote_append v (WUnit.lit '=' :: ((unitsOf n).reverse ++ [])) []
+    simp only [List.append_nil] at this ⊢
+    rw [this, lex_word_nil]
+    simp
+  · rw [removeQuotes_append]
+    show removeQuotes (unitsOf n) ++ removeQuotes (WUnit.lit '=' :: unitsOf v) = _
+    have : removeQuotes (WUnit.lit '=' :: unitsOf v) = '=' :: removeQuotes (unitsOf v) := by
+      simp [removeQuotes, WUnit.chars]
+    rw [this, removeQuotes_unitsOf, removeQuotes_unitsOf]
+
 /-- evaluates `readBack` on concrete text by the unfolding equations (`lex` is defined by well-founded
     recursion, so `decide` cannot run it) -/
 local macro "eval_readback" : tactic =>
@@ -127,5 +205,21 @@ example : readBack "[a]".toList = none := by eval_readback
 example : readBack "#x".toList = none := by eval_readback
 example : readBack "$x".toList = none := by eval_readback
 example : readBack "a;b".toList = none := by eval_readback
+
+/-- Witness of the known finding: alias name `[`, value `]` is printed `[=]`, which the reader does NOT
+    accept as a literal-only word (it is a bracket pattern for pathname expansion). -/
+theorem alias_cross_bracket_witness :
+    Listing.printAlias ("[".toList, "]".toList) = "[=]\n".toList ∧ readBack "[=]".toList = none := by
+  constructor
+  · decide
+  · eval_readback
+/-- while as the argument of a declaration utility the same word is harmless (`Single` mode) -/
+example : readBackDecl "[=]".toList = some ["[=]".toList] := by
+  simp [readBackDecl, lex, fieldOfDecl, assignValue, tildeFront, tildeTriggered, tildeAt, tildeAfterColon,
+    removeQuotes, WUnit.chars, isOperatorChar, isBlank, isWhitespace, operatorChars, blankExcluded, whitespaceRanges]
+example : Listing.printTrap ("INT", "echo 'a b'".toList) = "trap -- \"echo 'a b'\" INT\n".toList := by decide
+example : Listing.printVar "typeset" Listing.typesetOpts false
+    { name := "-n".toList, value := .scalar "a b".toList, exported := true, readonly := true }
+    = "typeset -r -x -- -n='a b'\n".toList := by decide
 
 end YashModel.Quote
